@@ -26,5 +26,21 @@ def _nontrivial(c):
     return s["tasks"] >= 2 and s["nested"] >= 1
 
 
+# the same list / dict object of stored handles yielded twice (by one task), and handed to two tasks
+_REUSE = [
+    (1, dict(_base, name="reuse", p_again=0.6, p_let=0.35, p_old=0.5, budget=16)),
+    (1, dict(_base, name="reuse-faulty", p_again=0.6, p_let=0.35, p_old=0.5, p_errfut=0.15, p_raise=0.1, p_try=0.25)),
+]
+_REUSE_CASE = {
+    "roots": [[
+        {"op": "let", "h": "h1", "f": {"task": [{"op": "yield", "x": "a1", "s": {"new": {"item": [0, 1, {"set": 5}]}}},
+                                                 {"op": "return", "e": {"var": "a1"}}]}},
+        {"op": "let", "h": "h2", "f": {"const": 7}},
+        {"op": "yield", "x": "x1", "s": {"list": [{"old": "h1"}, {"old": "h2"}]}, "again": "x2"},
+        {"op": "yield", "x": "x3", "s": {"dict": [[0, {"old": "h2"}], [1, {"old": "h1"}]]}, "again": "x4"},
+        {"op": "return", "e": {"tuple": [{"var": "x1"}, {"var": "x2"}, {"var": "x3"}, {"var": "x4"}]}}]],
+    "params": {"kinds": {}},
+}
+
 mach.install(globals(), "C01", ("EvStep", "EvGot", "EvDone"), ("C01:",), PROFILES, n_quick=300, n_thorough=25000,
-             nontrivial=_nontrivial, level="proof")
+             nontrivial=_nontrivial, level="proof", corpus=[_REUSE_CASE], extra_gen=mach.extra_profiles(_REUSE, 40, 3000))
